@@ -21,7 +21,8 @@ def run(path):
         tf = os.path.join(wd, "trace.ndjson")
         sc = r["scenario"]
         open(sf, "w").write(json.dumps(sc) + "\n")
-        C.exec_flw(sf, tf, sub=sub)
+        tz = ((r.get("trace") or [{}])[0] or {}).get("tz")
+        C.exec_flw(sf, tf, sub=sub, env={"TZ": tz} if tz else None)
         bads, counts, consumed, n = C.judge(mon, tf, os.path.join(wd, "meta"))
         for line in open(tf):
             e = json.loads(line)
